@@ -95,6 +95,22 @@ Lemma w_readd_variants_no_trace :
   leaves_trace_flush w_ord w_doc [EDoc (RemoveRecord T 2); EDoc (AddRecord T 2 [(A, 7)]); ECalc T B [(2, 14)]] 12 = false.
 Proof. vm_compute. split; reflexivity. Qed.
 
+(* (viii) crash inside BulkRemoveRecord between undo.append and summary.remove_records, with a pending calc delta on
+   the removed row: the summary still believes the row is there, so the flush APPENDS its restoring update; it runs
+   first, on a table that no longer has the row: the replay fails its assert and the rollback raises *)
+Definition w_remove_calc : list event :=
+  [EDoc (UpdateRecord T 2 [(A, 10)]); ECalc T B [(2, 20)]; EDoc (RemoveRecord T 2)].
+Lemma w_remove_before_mark_raises :
+  match run_until_crash w_ord (init_state w_doc []) w_remove_calc 9 with
+  | Crashed st _ done =>
+      last done = Some (MUndo (BulkAddRecord T [2] [(A, [10]); (B, [20])])) /\
+      bool_decide (rollback_flush w_ord st (sum_log (run_log w_ord (init_state w_doc []) w_remove_calc 9)) = None) = true
+  | _ => False end.
+Proof. vm_compute. split; reflexivity. Qed.
+(* one step later (the mark is set) the same bundle is reverted *)
+Lemma w_remove_after_mark_no_trace : leaves_trace_flush w_ord w_doc w_remove_calc 10 = false.
+Proof. vm_compute. reflexivity. Qed.
+
 (* (iii) schema action crashing after rebuild_usercode, before its undo: the schema restore re-creates the
    destroyed column empty *)
 Definition w_remove_column : list event := [EDoc (RemoveColumn T A)].
